@@ -40,7 +40,7 @@ EXHAUSTIVE = {'quick': False, 'thorough': False}
 
 def cases(tier, seed):
     cs = []
-    n = 200 if tier == 'quick' else 3500
+    n = 200 if tier == 'quick' else 7000
     for i in range(n):
         fam = '1d' if i % 2 == 0 else '2d'
         spec = ['dict', 'params', 'ops', 'params_no_bias', 'ops_no_bias', 'gap8'][(i // 2) % 6]
